@@ -14,8 +14,8 @@ def showOptBool : Option Bool → String
   | some b => showBool b
 
 /-- a stateful line interpreter -/
-structure Machine where
-  σ : Type
+structure Machine.{u} where
+  σ : Type u
   init : σ
   step : σ → List String → σ × String
 
